@@ -24,4 +24,17 @@ ListNorm(T) ==
     [] T.op \in {"NOT","MUST","MUST_NOT","FUZZY","BOOST"} -> [T EXCEPT !.l = ListNorm(T.l)]
     [] OTHER -> T
 KF_C11_ListForm(treeDf, treeNo, df) == ListNorm(GK!EraseDefault(treeDf, df)) = treeNo
+
+\* ---- C09-dangling-escape ----------------------------------------------------------------------
+\* A bare word whose last character is a backslash that escapes nothing (the input ends there) takes
+\* whitespace appended to the input as the escaped character (lex.go lexWord: the escape skips the next
+\* rune), so "foo\\" and "foo\\ " parse to different values.  Signature: the variant only adds trailing
+\* whitespace after an input whose final token is a word ending in an unpaired backslash.
+RECURSIVE Dangling(_,_)
+Dangling(w, i) == IF i > Len(w) THEN FALSE
+                  ELSE IF w[i] = "BS" THEN (IF i = Len(w) THEN TRUE ELSE Dangling(w, i + 2))
+                  ELSE Dangling(w, i + 1)
+\* lastTok = symbols of the last token of the original input; endsAtEnd = it ends where the input ends
+KF_C09_DanglingEscape(kind, lastTyp, lastTok, endsAtEnd) ==
+  kind \in {"trail","all"} /\ lastTyp = "LITERAL" /\ endsAtEnd /\ Dangling(lastTok, 1)
 ========================================================================
